@@ -662,8 +662,8 @@ def observed_class(ans):
 
 
 def model_predictions(coqdir, workdir, switches, terms):
-    """evaluates the extracted... no: evaluates ExecFaults.outcomes with coqc (vm_compute) on the given action sequences;
-    returns the list of predicted classes"""
+    """evaluates ExecFaults.outcomes with coqc (vm_compute) on the given action sequences (the model is small and not
+    extracted: coqc is the evaluator); returns the list of predicted classes"""
     import re
     os.makedirs(workdir, exist_ok=True)
     src = ['From V Require Import Base Chart Exec ExecFaults.', 'Local Open Scope N_scope.',
@@ -677,11 +677,13 @@ def model_predictions(coqdir, workdir, switches, terms):
            'Eval vm_compute in map (fun l => cls (outcomes vv env0 (fun _ => false) l fstate0)) cases.']
     f = os.path.join(workdir, 'C07FaultsEval.v')
     open(f, 'w').write('\n'.join(src) + '\n')
-    p = subprocess.run('timeout 600 coqc -R %s V -R . C07Tmp C07FaultsEval.v' % coqdir, shell=True, cwd=workdir,
-                       stdout=subprocess.PIPE, stderr=subprocess.STDOUT)
+    import vlib
+    with vlib.Lock('coq'):      # ExecFaults.vo must not be rebuilt under the evaluation
+        p = subprocess.run('timeout 600 coqc -R %s V -R . C07Tmp C07FaultsEval.v' % coqdir, shell=True, cwd=workdir,
+                           stdout=subprocess.PIPE, stderr=subprocess.STDOUT)
     out = p.stdout.decode('utf-8', 'replace')
     if p.returncode != 0:
-        raise RuntimeError('ExecFaults.v could not be evaluated: ' + out[-1500:])
+        raise vlib.BuildError('ExecFaults.v could not be evaluated: ' + out[-1500:])
     m = re.search(r'=\s*\[(.*?)\]\s*:\s*list nat', out, flags=re.S)
     if not m:
         raise RuntimeError('unexpected coqc output: ' + out[-800:])
